@@ -18,10 +18,91 @@ var NumberForms = []string{"0", "-0", "1", "-1", "7", "12", "127", "128", "-128"
 	"3.4028234663852886e38", "3.5e38", "1.7976931348623157e308", "1e309", "-1e309", "5e-324", "1e-400", "0e0", "0.0", "-0.0", "2.5", "1e1", "12345678.875"}
 
 var StringPieces = []string{"", "a", "b", "ab", "Ab", "hello", " ", "x y", `\"`, `\\`, `\/`, `\b`, `\f`, `\n`, `\r`, `\t`,
-	`A`, `a`, `é`, `€`, ` `, ` `, `😀`, `\ud800`, `\udc00`, `\ud800A`, `😀`, `\u0000`, `\u001f`, `\u007f`,
-	"é", "日本", " ", "😀", "<", ">", "&", "<script>", "'", "/", "0", "12", "true", "null", "-", "\x7f"}
+	"é", "日本", " ", "😀", "<", ">", "&", "<script>", "'", "/", "0", "12", "true", "null", "-", "\x7f"}
 
-var KeyPool = []string{"a", "b", "A", "B", "ab", "Ab", "aB", "AB", "x", "k", "id", "name", "", " ", "a.b", "é", "<k>", `a`, `A`, `ab`, "key with space", "0", "1"}
+var KeyPool = []string{"a", "b", "A", "B", "ab", "Ab", "aB", "AB", "x", "k", "id", "name", "", " ", "a.b", "é", "<k>", "key with space", "0", "1"}
+
+// bs is a backslash; escapes are assembled at run time so that no tool layer can rewrite them.
+const bs = "\\"
+
+func init() {
+	for _, u := range []string{"0041", "0061", "00e9", "20ac", "2028", "2029", "d83d" + bs + "ude00", "d800", "dc00", "d800" + bs + "u0041", "0000", "001f", "007f"} {
+		StringPieces = append(StringPieces, bs+"u"+u)
+	}
+	KeyPool = append(KeyPool, bs+"u0061", bs+"u0041", bs+"u0061b", "a"+bs+"u0062", bs+"u0041"+bs+"u0062")
+}
+
+var bmpEdges = []int{0x0000, 0x001f, 0x0020, 0x0022, 0x0026, 0x002f, 0x003c, 0x003e, 0x0041, 0x005c, 0x007f, 0x0080, 0x07ff, 0x0800,
+	0x2027, 0x2028, 0x2029, 0x202a, 0xd7ff, 0xe000, 0xfffd, 0xfffe, 0xffff}
+var hiEdges = []int{0xd800, 0xd801, 0xd83d, 0xdbfe, 0xdbff}
+var loEdges = []int{0xdc00, 0xdc01, 0xde00, 0xdffe, 0xdfff}
+
+func hex4(r *rand.Rand, b []byte, v int) []byte {
+	const lo, up = "0123456789abcdef", "0123456789ABCDEF"
+	tab := lo
+	switch r.Intn(3) {
+	case 0:
+		tab = up
+	case 1: // mixed case per digit
+		for sh := 12; sh >= 0; sh -= 4 {
+			if r.Intn(2) == 0 {
+				b = append(b, lo[(v>>uint(sh))&15])
+			} else {
+				b = append(b, up[(v>>uint(sh))&15])
+			}
+		}
+		return b
+	}
+	for sh := 12; sh >= 0; sh -= 4 {
+		b = append(b, tab[(v>>uint(sh))&15])
+	}
+	return b
+}
+
+func pickEdge(r *rand.Rand, edges []int, lo, hi int) int {
+	if r.Intn(2) == 0 {
+		return edges[r.Intn(len(edges))]
+	}
+	return lo + r.Intn(hi-lo+1)
+}
+
+// UEscape appends one \u-escape construct with a bias to the edges of every range the decoders
+// distinguish: BMP code units, well-formed surrogate pairs (both halves at their range ends), lone
+// halves, reversed pairs, and a high half followed by something that is not a low half.
+func UEscape(r *rand.Rand, b []byte) []byte {
+	u := func(v int) { b = append(b, bs+"u"...); b = hex4(r, b, v) }
+	switch r.Intn(10) {
+	case 0, 1, 2:
+		u(pickEdge(r, bmpEdges, 0, 0xd7ff))
+	case 3:
+		u(pickEdge(r, bmpEdges, 0xe000, 0xffff))
+	case 4, 5, 6:
+		u(pickEdge(r, hiEdges, 0xd800, 0xdbff))
+		u(pickEdge(r, loEdges, 0xdc00, 0xdfff))
+	case 7:
+		if r.Intn(2) == 0 {
+			u(pickEdge(r, hiEdges, 0xd800, 0xdbff))
+		} else {
+			u(pickEdge(r, loEdges, 0xdc00, 0xdfff))
+		}
+	case 8:
+		u(pickEdge(r, loEdges, 0xdc00, 0xdfff))
+		u(pickEdge(r, hiEdges, 0xd800, 0xdbff))
+	default:
+		u(pickEdge(r, hiEdges, 0xd800, 0xdbff))
+		switch r.Intn(4) {
+		case 0:
+			u(pickEdge(r, bmpEdges, 0, 0xd7ff))
+		case 1:
+			b = append(b, bs+"n"...)
+		case 2:
+			u(pickEdge(r, hiEdges, 0xd800, 0xdbff))
+		default:
+			b = append(b, 'x')
+		}
+	}
+	return b
+}
 
 // StrLit produces a valid JSON string literal (with quotes).
 func StrLit(r *rand.Rand) []byte {
@@ -31,6 +112,10 @@ func StrLit(r *rand.Rand) []byte {
 	}
 	b := []byte{'"'}
 	for i := 0; i < n; i++ {
+		if r.Intn(5) == 0 {
+			b = UEscape(r, b)
+			continue
+		}
 		b = append(b, StringPieces[r.Intn(len(StringPieces))]...)
 	}
 	return append(b, '"')
